@@ -162,7 +162,7 @@ def _field_assume(field, state):
     return Assume(m, state)
 
 
-def decide(body, field_states, max_paths=4000):
+def decide(body, field_states, max_paths=4000, mark_blocks=()):
     """Outcomes of a loop-free function under assumptions {option field name: 'None' | 'Some'}:
     list of dict(value=simplified return term, true=[tests that held], false=[tests that failed]) -- one per feasible path.
     Tests whose outcome follows from the assumptions are resolved (only the feasible edge is explored)."""
@@ -206,7 +206,8 @@ def decide(body, field_states, max_paths=4000):
         return (("t", show(subj)), {True: t, False: fl})
 
     out = []
-    for lf in paths.explore(body, 0, root_is, lambda b, x: False, init_constraints=init, switch_hook=hook, max_paths=max_paths):
+    mb = set(mark_blocks)
+    for lf in paths.explore(body, 0, root_is, lambda b, x: x in mb, init_constraints=init, switch_hook=hook, max_paths=max_paths):
         if lf["kind"] == "limit":
             return None
         if lf["kind"] != "return":
@@ -219,5 +220,6 @@ def decide(body, field_states, max_paths=4000):
                 vals.append(s)
         tr = [k[1] for k, lab in lf["cons"].items() if isinstance(k, tuple) and k and k[0] == "t" and lab is True]
         fa = [k[1] for k, lab in lf["cons"].items() if isinstance(k, tuple) and k and k[0] == "t" and lab is False]
-        out.append({"values": vals, "true": [seen_tests.get(x, x) for x in tr], "false": [seen_tests.get(x, x) for x in fa], "path": lf["path"]})
+        out.append({"values": vals, "true": [seen_tests.get(x, x) for x in tr], "false": [seen_tests.get(x, x) for x in fa], "path": lf["path"],
+                    "marked": lf["marked"]})
     return out
